@@ -30,7 +30,7 @@ RULE = (
     "seeded sessions (chains with revolute / spherical / other joints, springs on revolute joints turning several times, "
     "Maxwell elements, compliance-form springs, sphere-plane and sphere-sphere contacts; RATTLE, Moreau, BackwardEuler, "
     "DualStormerVerlet, ScipyIVP; 16..48 steps, tight tolerances). Crash points: quick = 3 seeded split steps per session, "
-    "thorough = every split step 1..N-1 (enumerated). Variants: system copy taken before / after the first leg, durable "
+    "thorough = every split step 1..N-1 (enumerated). Variants: system copy taken before the run / after the first leg / after the whole uninterrupted run, durable "
     "state handed over in memory / through save_solution -> load_solution on disk. Oracles: (1) second leg equals the "
     "uninterrupted run on the overlapping grid; (2) model identity: g, g_dot, W_g, h, la_c, g_N, E_pot of the re-initialised "
     "copy equal those of a system the harness builds itself from the body-fixed plan at the same state, at 3 probe states; "
@@ -46,7 +46,7 @@ ASSUMPTIONS = [
     "states of Moreau / BackwardEuler / DualStormerVerlet violate the velocity-level constraints by O(dt) by design; their restarts pass compute_consistent_initial_conditions=False (rejecting them is correct per C16)",
     "trajectory tolerance 1e-6*(1+scale) with solver tolerances <= 1e-9; model-identity tolerance 1e-8 + 10*|g(q_k)|",
 ]
-REQUIRED_PROBES = {"quick": ["split_executed", "restart_via_file", "copy_after_first_leg", "revolute_present", "contact_present"]}
+REQUIRED_PROBES = {"quick": ["split_executed", "restart_via_file", "copy_after_first_leg", "copy_after_full_run", "revolute_present", "contact_present"]}
 
 
 def gen(rng, tier, index):
@@ -69,16 +69,22 @@ def gen(rng, tier, index):
         scene = gen_chain_scene(rng, nbodies=int(rng.integers(1, 4)), allow_loop=False)
     n = int(rng.integers(16, 48))
     dt = float(10 ** rng.uniform(-2.7, -2.0))
+    if kind == "revolute_spring":
+        # long enough for the joint to travel more than half a turn between an early split and the end
+        n = int(rng.integers(30, 64))
+        dt = float(10 ** rng.uniform(-2.3, -2.0))
     solver = gen_solver(rng, name, n, dt, tight=True, buggify=False, contacts=(kind == "contact"))
     if name == "ScipyIVP":
         solver["kwargs"] = {"method": str(rng.choice(["RK45", "DOP853", "Radau"])), "rtol": 1e-10, "atol": 1e-12}
     splits = sorted({int(x) for x in rng.integers(1, n, size=3)})
+    if kind == "revolute_spring":
+        splits = sorted({int(rng.integers(1, max(n // 4, 2))), *splits[1:]})
     return {
         "scene": scene,
         "kind": kind,
         "solver": solver,
         "splits": splits if tier == "quick" else list(range(1, n)),
-        "copy": str(rng.choice(["before", "after"])),
+        "copy": str(rng.choice(["before", "after", "after_full"])),
         "durable": str(rng.choice(["memory", "file"])),
         "probe_seed": int(rng.integers(2**31)),
     }
@@ -241,6 +247,12 @@ def execute(plan, out, log):
                     copy_sys = B1.system.deepcopy()
                     out["probes"]["copy_after_first_leg"] += 1
                     out["steps"] += k
+                elif plan["copy"] == "after_full":
+                    # the copy is taken from the system that has just finished the whole run: whatever it last
+                    # evaluated belongs to the final time, not to the restart state
+                    sol1 = ref
+                    copy_sys = B.system.deepcopy()
+                    out["probes"]["copy_after_full_run"] += 1
                 else:
                     sol1 = ref
                     copy_sys = pristine.deepcopy()
@@ -510,7 +522,7 @@ def shrink(plan):
         yield dict(plan, splits=[max(1, plan["splits"][0] // 2)])
     if plan["durable"] == "file":
         yield dict(plan, durable="memory")
-    if plan["copy"] == "after":
+    if plan["copy"] != "before":
         yield dict(plan, copy="before")
     sc = plan["scene"]
     for key in ("forces", "actuators", "laws", "contacts"):
